@@ -143,9 +143,9 @@ pub fn spec() -> CheckSpec {
         level: "exploration",
         rule: "C01/C02 worlds on SQLite/SQLCipher nodes with clean restarts (drop MDK + storage, reopen the file) at seeded positions between API calls, biased by weight; each run is executed twice from the same seed, with and without the restart steps, and every later API result and per-step fingerprint must be identical (per-step reseeding makes ids, keys and timestamps equal); non-trivial = a restart followed by a rollback, a late competing commit or the merge of a commit created before the restart; distinct = delivery signature",
         variants: vec![
-            Variant { name: "sqlite", profile: Profile { ..base.clone() }, runs_quick: 150, runs_thorough: 8000, oracle: mk, guarded: false, configure_gen: Some(more_restarts), post: Some(post) },
-            Variant { name: "sqlcipher", profile: Profile { backend: BackendMix::SqliteCipher, ..base.clone() }, runs_quick: 60, runs_thorough: 3000, oracle: mk, guarded: false, configure_gen: Some(more_restarts), post: Some(post) },
-            Variant { name: "sqlite-single-committer-guarded", profile: Profile { allow_fork: false, guards: guards.clone(), ..base.clone() }, runs_quick: 100, runs_thorough: 5000, oracle: mk, guarded: true, configure_gen: Some(more_restarts), post: Some(post) },
+            Variant { name: "sqlite", profile: Profile { ..base.clone() }, runs_quick: 150, runs_thorough: 8000, oracle: mk, guarded: false, configure_gen: Some(more_restarts), post: Some(post), custom: None },
+            Variant { name: "sqlcipher", profile: Profile { backend: BackendMix::SqliteCipher, ..base.clone() }, runs_quick: 60, runs_thorough: 3000, oracle: mk, guarded: false, configure_gen: Some(more_restarts), post: Some(post), custom: None },
+            Variant { name: "sqlite-single-committer-guarded", profile: Profile { allow_fork: false, guards: guards.clone(), ..base.clone() }, runs_quick: 100, runs_thorough: 5000, oracle: mk, guarded: true, configure_gen: Some(more_restarts), post: Some(post), custom: None },
         ],
         assumptions: vec!["clean shutdown (crashes are C12)", "same constructor, key, config and callback on reopen"],
         real: super::REAL.to_vec(),
